@@ -73,7 +73,8 @@ def fam_publish(ctx):
 
 def fam_taint(ctx):
     from . import c02
-    items = ["parse_alloc_bad", "parse_alloc_clamped_ok", "parse_alloc_guarded_ok", "parse_alloc_narrow_ok", "parse_alloc_len_ok"]
+    items = ["parse_alloc_bad", "parse_alloc_clamped_ok", "parse_alloc_guarded_ok", "parse_alloc_narrow_ok", "parse_alloc_len_ok",
+             "parse_alloc_after_loop_ok", "parse_alloc_before_loop_bad", "parse_alloc_after_idle_loop_bad"]
     ents = [body(ctx, i).id for i in items]
     cl = ctx.prog.closure_of(ents)
     sub = type(ctx)(ctx.prog, ctx.prop, ctx.tier, selftest=True)
@@ -83,8 +84,9 @@ def fam_taint(ctx):
         bid = body(ctx, i).id
         hit = any(bid in k for k in reported)
         (ctx.bad if hit else ctx.ok)("ST.taint", [i], "unbounded input-derived allocation" if hit else "bounded / not input-derived", body(ctx, i).loc())
-    return {"must_report": ["ST.taint|parse_alloc_bad"],
-            "must_not_report": ["ST.taint|parse_alloc_clamped_ok", "ST.taint|parse_alloc_guarded_ok", "ST.taint|parse_alloc_narrow_ok", "ST.taint|parse_alloc_len_ok"]}
+    return {"must_report": ["ST.taint|parse_alloc_bad", "ST.taint|parse_alloc_before_loop_bad", "ST.taint|parse_alloc_after_idle_loop_bad"],
+            "must_not_report": ["ST.taint|parse_alloc_clamped_ok", "ST.taint|parse_alloc_guarded_ok", "ST.taint|parse_alloc_narrow_ok", "ST.taint|parse_alloc_len_ok",
+                                "ST.taint|parse_alloc_after_loop_ok"]}
 
 
 def fam_panic(ctx):
